@@ -224,6 +224,11 @@ class RF24:
         for i, val in enumerate(address):
             self._tx_address[i] = val
         self._reg_write_bytes(TX_ADDRESS, address)
+        if self._aa & 1 and not self._config & 1 and not self._open_pipes & 1:
+            # already in TX mode (otherwise `listen = False` does this): pipe 0 must be
+            # open to receive the ACK packets
+            self._open_pipes |= 1
+            self._reg_write(OPEN_PIPES, self._open_pipes)
 
     def close_rx_pipe(self, pipe_number: int) -> None:
         """Close a specific data pipe from RX transmissions."""
